@@ -53,6 +53,15 @@ func (e *Exec) call(fr *Frame, st *State, x *ssa.Call) (Value, bool) {
 		return e.builtin(fr, st, x, b)
 	}
 	callee := c.StaticCallee()
+	if callee == nil && c.Method != nil {
+		// slip.Locker (NoOpLocker / mutex wrappers): assumed to have no effect on slip data
+		switch c.Method.Name() {
+		case "Lock", "Unlock", "RLock", "RUnlock":
+			if n, ok := c.Value.Type().(*types.Named); ok && n.Obj().Name() == "Locker" {
+				return nil, true
+			}
+		}
+	}
 	if callee == nil {
 		// dynamic call: interface method or function value
 		e.argsEscape(fr, st, c)
@@ -394,31 +403,72 @@ func (e *Exec) doCopy(fr *Frame, st *State, x *ssa.Call) Value {
 }
 
 func (e *Exec) runDefers(fr *Frame, st *State) {
-	if len(fr.defers) == 0 {
+	if len(st.defers) == 0 {
 		return
 	}
-	// deferred calls run here in reverse order; modelled as opaque calls
-	for i := len(fr.defers) - 1; i >= 0; i-- {
-		d := fr.defers[i]
-		e.argsEscape(fr, st, &d.Call)
-		if callee := d.Call.StaticCallee(); callee != nil && inModule(callee) {
-			ms := e.P.ModSetOf(callee)
-			e.havoc(st, ms)
-			// closures write captured locals
-			if mc, ok := d.Call.Value.(*ssa.MakeClosure); ok {
-				for _, bnd := range mc.Bindings {
-					if r := allocRoot(bnd); r != nil {
-						if key, ok := fr.localKey(r); ok {
-							e.havocLocal(st, key)
-						}
+	// deferred calls run in reverse order, each only on the paths that registered it
+	for i := len(st.defers) - 1; i >= 0; i-- {
+		de := st.defers[i]
+		if de.d.Parent() != fr.fn {
+			continue
+		}
+		applies := e.def(SBool, And(st.pc, de.guard))
+		skips := e.def(SBool, And(st.pc, Not(de.guard)))
+		with := st.clone()
+		with.pc = applies
+		with.defers = nil
+		e.runOneDefer(fr, with, de.d)
+		without := st.clone()
+		without.pc = skips
+		m := e.mergeStates([]*State{with, without})
+		keep := st.defers
+		st.pc, st.heap, st.epoch = m.pc, m.heap, m.epoch
+		st.defers = keep
+	}
+	st.defers = nil
+	e.bumpAlloc(st)
+}
+
+func (e *Exec) runOneDefer(fr *Frame, st *State, d *ssa.Defer) {
+	for _, h := range e.hooks {
+		if ok, _ := h.Call(e, fr, st, &d.Call, d); ok {
+			return
+		}
+	}
+	// a deferred closure of this function: run its body here (normal exit path)
+	if mc, ok := d.Call.Value.(*ssa.MakeClosure); ok {
+		if cf, ok := mc.Fn.(*ssa.Function); ok && len(cf.Blocks) > 0 && fr.depth < 4 && cf.Recover == nil {
+			nf := &Frame{fn: cf, vals: map[ssa.Value]Value{}, locals: map[*ssa.Alloc]string{}, parent: fr, depth: fr.depth + 1, path: fr.path + "defer>"}
+			for i, fv := range cf.FreeVars {
+				nf.vals[fv] = e.val(fr, mc.Bindings[i])
+			}
+			for i, p := range cf.Params {
+				nf.vals[p] = e.val(fr, d.Call.Args[i])
+			}
+			out, _ := e.execFunc(nf, st.clone())
+			if out != nil {
+				st.pc, st.heap, st.epoch = out.pc, out.heap, out.epoch
+			}
+			return
+		}
+	}
+	e.argsEscape(fr, st, &d.Call)
+	if callee := d.Call.StaticCallee(); callee != nil && inModule(callee) {
+		ms := e.P.ModSetOf(callee)
+		e.havoc(st, ms)
+		// closures write captured locals
+		if mc, ok := d.Call.Value.(*ssa.MakeClosure); ok {
+			for _, bnd := range mc.Bindings {
+				if r := allocRoot(bnd); r != nil {
+					if key, ok := fr.localKey(r); ok {
+						e.havocLocal(st, key)
 					}
 				}
 			}
-		} else {
-			e.newEpoch(st)
 		}
+	} else {
+		e.newEpoch(st)
 	}
-	e.bumpAlloc(st)
 }
 
 // knownCall: library functions with precise enough built-in models.
